@@ -177,6 +177,7 @@ Proof.
   - cbn [fst]. intros H. left. exists e'. split; [|auto]. unfold close_client in H. destruct (cclosed s); assumption.
   - cbn [fst]. intros H. left. exists e'. auto.
   - cbn [fst]. intros H. left. exists e'. auto.
+  - cbn [fst]. intros H. apply timers_kf in H. left. exact H.
 Qed.
 
 Lemma has_handle_keys mo now c ks k :
@@ -550,6 +551,29 @@ Proof.
     intros a Ha. apply in_map_iff in Ha. destruct Ha as (b & Hb & Hin). subst. unfold closed_sub. destruct (closing b); cbn [so_imgs]; [constructor|auto].
 Qed.
 
+Lemma expect_chan lg mo s now : Inv s -> Sim lg mo s ->
+  exists ecbs mo1, expect mo (ChanErr now) (Ok 0) = Some (ecbs, mo1) /\
+                   Post mo s (ChanErr now) (fst (step_p lg s (ChanErr now))) ecbs mo1.
+Proof.
+  intros HI HS. pose proof HS as (S1 & S2 & S3 & S4 & S5 & S6). cbn [step_p expect acq fst] in *.
+  eexists _, _. split; [reflexivity|]. apply Post_timers. unfold chan_err. rewrite (chan_sub_closed_sub s HI).
+  exists (closing_cbs (subs s)). cbn [cblog cclosed subs pubs clones mo_closed mo_subs mo_pubs mo_clones mo_keys].
+  split; [reflexivity|]. split.
+  { rewrite S2. unfold closing_cbs, close_cbs.
+    assert (G : forall l, (forall a, In a l -> In a (subs s)) ->
+                map cb_view (flat_map (fun o => if closing o then unavail_cbs (so_reg o) (so_imgs o) else []) l) =
+                flat_map (fun m => if ms_live m then unavail_of (ms_reg m) (ms_imgs m) else []) (map msub_of l)).
+    { induction l as [|a l IH]; intros Hl; [reflexivity|]. cbn [flat_map map]. rewrite map_app, IH by (intros; apply Hl; right; assumption).
+      rewrite (closing_eq s a HI) by (apply Hl; left; reflexivity). cbn [ms_live msub_of ms_reg ms_imgs].
+      destruct (so_inmap a); [rewrite unavail_view|]; reflexivity. }
+    apply G. auto. }
+  split; [exact S1|]. split.
+  { rewrite S2, !map_map. apply map_ext_in. intros a Ha. unfold close_msub, closed_sub. rewrite (closing_eq s a HI Ha).
+    cbn [ms_live msub_of]. destruct (so_inmap a) eqn:Ei; unfold msub_of; cbn; [reflexivity|]. rewrite Ei. reflexivity. }
+  split; [exact S3|]. split; [assumption|]. split; [|left; auto].
+  intros a Ha. apply in_map_iff in Ha. destruct Ha as (b & Hb & Hin). subst. unfold closed_sub. destruct (closing b); cbn [so_imgs]; [constructor|auto].
+Qed.
+
 Lemma expect_all lg mo s o : time_ok lg -> Inv s -> Sim lg mo s ->
   op_in_domain mo o (snd (step_p lg s o)) = true ->
   exists ecbs mo1, expect mo o (snd (step_p lg s o)) = Some (ecbs, mo1) /\ Post mo s o (fst (step_p lg s o)) ecbs mo1.
@@ -567,7 +591,12 @@ Proof.
   - apply expect_close; assumption.
   - cbn [step_p snd fst expect]. exists [], mo. split; [reflexivity|]. apply (Post_same mo s _ lg _ HS); reflexivity.
   - cbn [step_p snd fst expect]. exists [], mo. split; [reflexivity|]. apply (Post_same mo s _ lg _ HS); reflexivity.
+  - apply expect_chan; assumption.
 Qed.
+
+Lemma clones_ok_model s l : clones_ok (map (is_closed_img s) l) = true.
+Proof. unfold clones_ok. apply forallb_forall. intros v Hv. apply in_map_iff in Hv. destruct Hv as (i & <- & _).
+  unfold is_closed_img. destruct (existsb (Z.eqb (i_oid i)) (closed_oids s)); reflexivity. Qed.
 
 Lemma sim_step lg mo s o : time_ok lg -> wf s -> Inv s -> RInv s -> Sim lg mo s -> op_ok o ->
   match mon_step lg mo o (observe s (fst (step_p lg s o)) (snd (step_p lg s o))) with
@@ -583,7 +612,7 @@ Proof.
   assert (Hnow : mo_now mo <= op_now mo o).
   { unfold op_in_domain in Ed. rewrite !andb_true_iff in Ed. destruct Ed as [[[_ Ed] _] _]. lia. }
   destruct (sim_finish lg mo s o mo1 ecbs newcbs Hlg Hwf HI HR HS Hop Hnow P1 P2 P3 P4 P5 P6 P7 P8) as [Hc Hs].
-  unfold finish in Hc, Hs. cbv zeta in Hc, Hs. cbv zeta. rewrite Hc. exact Hs.
+  unfold finish in Hc, Hs. cbv zeta in Hc, Hs. cbv zeta. rewrite Hc. rewrite clones_ok_model. exact Hs.
 Qed.
 
 Lemma sim_init lg t0 cid : Sim lg (mon_init t0) (init t0 cid).
